@@ -38,6 +38,12 @@ CLAIMED["C07"] = dict(text="Bounded symbolic model checking of the real restrain
              design="DESIGN.md 4/C07", technique="symbolic execution of the real Python code with z3 (symx), QF_NRA/QF_LRA obligations; selectors for graph shapes",
              note="reals not floats; arccos/degrees uninterpreted monotone; statistical shape of sampling and `bendiness` excluded; composition of the lemmas (every generated "
                   "residue passes update_positions, C05) is by reading the real control flow, not by one end-to-end symbolic run. " + NOTE_COMMON)
+CLAIMED["C04"] = dict(text="Bounded symbolic model checking of the real add_positions_from_file (number of supplied rows symbolic, skip list / resolution / index "
+                  "permutation solver-chosen, independent consumption model as oracle), of BuildSystem.run_system with an ignored molecule type at every "
+                  "place and a partially supplied chain under every failure schedule of placement steps (symbolic booleans), and of Backmap on every "
+                  "assignment of backmap flags.",
+             design="DESIGN.md 4/C04", technique="symbolic execution of the real Python code with z3 (symx), bounded exhaustive over schedules and input splits",
+             note="coordinate file parsing (vermouth read_gro/read_pdb) is replaced by a sentinel array; update_positions scripted; system layouts from a catalogue. " + NOTE_COMMON)
 NOT_YET = {}
 def main():
     props = [json.loads(l) for l in open(os.path.join(ROOT, "properties.jsonl"))]
